@@ -239,6 +239,7 @@ class Obs:
         self.specs = None
 
 
+PROJECTION_REJECTED = "projection-rejected"  # the (concrete) position has no projection on the region
 DUPLICATE = "duplicate-specifier"  # "Cannot use X specifier to modify itself": the same
 # specifier twice, i.e. a same-priority ambiguity or a double modification
 
@@ -271,6 +272,8 @@ def classify_exception(e):
         return M.ON_VECTOR
     if isinstance(e, NotImplementedError) and 'does not yet support projection using "on"' in msg:
         return M.NO_PROJECTION
+    if type(e).__name__ == "RejectionException" and "Unable to place object on surface" in msg:
+        return PROJECTION_REJECTED
     return "other:" + type(e).__name__
 
 
@@ -483,8 +486,9 @@ def judge(ns, clsname, mode2D, keys, specs, obs, sems, out, stats):
     multiset (indices refer to `keys`)."""
     v = []
     if obs.status == "error":
-        if obs.kind == M.NO_PROJECTION and not out.errors and out.may_refuse_projection:
-            # resolution chose the modifying `on` as predicted; the region type then refused
+        if not out.errors and ((obs.kind == M.NO_PROJECTION and out.may_refuse_projection) or (obs.kind == PROJECTION_REJECTED and out.modifier)):
+            # resolution chose the modifying `on` as predicted; then the region type refused
+            # to project, or the given position has no projection on it (a rejection)
             stats["projection_refused"] += 1
             return v
         if not out.errors:
@@ -965,7 +969,7 @@ def run(ctx):
         "when several documented errors apply to one multiset, any of them may be reported, in any order",
         "internal properties (leading underscore, e.g. _observingEntity set by `visible`, documented as 'also adds a requirement') are not judged",
         "additive/dynamic/final attributes of defaults are not described in the reference; additive = tuple of the values along the class chain (most derived first), dynamic = no effect on resolution, final = cannot be specified",
-        "2D mode: `with heading X` is read as `facing X` only for classes with an orientation (porting.rst says it unconditionally; a Point has no heading); polygonal regions refusing to project ('does not yet support projection') is an argument-level limitation and is counted, not judged",
+        "2D mode: `with heading X` is read as `facing X` only for classes with an orientation (porting.rst says it unconditionally; a Point has no heading); a modifying `on` whose region type refuses to project ('does not yet support projection', polygonal regions) or on which the given position has no projection (RejectionException 'Unable to place object on surface') is an argument-level outcome: counted (skipped_projection_unsupported), not judged",
         "values are compared at compile time (random values structurally: same distribution over the same operands), nothing is sampled",
     ]
 
